@@ -90,6 +90,12 @@ def catalogue():
             if mkind == tk:
                 continue
             out.append((f"kind-mismatch:new{mkind}>{tk}", new_vec(mkind, "DEV", vn, [one_child(mkind, en)]), {(vn, en)}))
+            # the same with an element that carries no text at all (value None after parsing)
+            extra = ' size="5" format=".bin"' if mkind == "BLOB" else ""
+            out.append((f"kind-mismatch-empty:new{mkind}>{tk}", new_vec(mkind, "DEV", vn, [f'<one{mkind} name="{en}"{extra}/>']), {(vn, en)}))
+        if tk in ("Text", "Number", "BLOB"):
+            extra = ' size="5" format=".bin"' if tk == "BLOB" else ""
+            out.append((f"empty-element>{tk}", new_vec(tk, "DEV", vn, [f'<one{tk} name="{en}"{extra}/>']), {(vn, en)}))
     out += [
         ("invalid-switch-text", new_vec("Switch", "DEV", "SWITCH_V", [one_child("Switch", "S1", "Maybe")]), set()),
         ("empty-switch-text", new_vec("Switch", "DEV", "SWITCH_V", ['<oneSwitch name="S1"/>']), set()),
